@@ -1,10 +1,12 @@
 import CashewsVerif.Lemmas.DisableConc
 import CashewsVerif.Lemmas.DisableHist
+import CashewsVerif.Lemmas.DisableCompose
 /-
 C17 — keys are routed by longest prefix; disabling truly bypasses the cache.
 Property theorems only; helper lemmas live in `Lemmas/Route.lean`, `Lemmas/RouteGroup.lean`,
 `Lemmas/Disable.lean`, `Lemmas/DisableConc.lean`, `Lemmas/RouteHist.lean`, `Lemmas/DisableStack.lean`,
-`Lemmas/DisableHist.lean`; the models in `Model/Route.lean`, `Model/Disable.lean`.
+`Lemmas/DisableHist.lean`, `Lemmas/DisableCompose.lean`; the models in `Model/Route.lean`,
+`Model/Disable.lean`, `Model/DisableCompose.lean`.
 
 Strings are lists of code points: `[]` = "", `[97]` = "a", `[98]` = "b", `[97,98]` = "ab",
 `[97,58]` = "a:".
@@ -624,6 +626,145 @@ theorem plain_environment (t : Table) (w : World) (c : Nat) (inTx : Bool) (ini :
       (exec t w c inTx f).map fun rc => (rc.1, rc.2.map BCall.cmd, ini) :=
   execS_plain t w c inTx ini f hin
 
+/-! ## Composite commands: what the facade does behind the caller's back
+
+Tagged `set` / `incr` (→ `set_add` on the tag keys, possibly on a dedicated backend under `_tag:`),
+`delete_tags` (→ `set_pop`, `delete_many`), `get_or_set`, `cache.lock` (→ `set_lock`, `ping`, `unlock`),
+`@cache.invalidate` (→ `delete_match`) are programs over the facade's own public commands (`Prog`,
+`Comp.prog` in `Model/DisableCompose.lean`): every step is routed and runs through the whole middleware
+stack, and the next step depends on what the previous one answered (`Env`: the backends' answers and
+the keys they report as removed, arbitrary).  The on-remove callback (→ `set_remove` on the tags
+backend) is called by a backend while it deletes keys and asks the tags backend directly. -/
+
+/-- **Every backend command a composite causes is enabled for its receiver and routed by longest
+prefix** — for EVERY program over the facade's public commands (any control flow over the answers),
+every environment (whatever the backends answer, whatever keys they remove), every table, control
+state and context, in or outside a transaction and `invalidate_further()`, initialised backends or
+not.  (i) Each backend call (command, replacing deletion, `init()`) issued under the facade command `f`
+goes to a registered backend that has `f` ENABLED in the caller's context and that is the
+longest-prefix backend of every key handed over.  (ii) Each call of the on-remove callback is the
+`set_remove` of one tag key, handed to the backend registered for `_tag:`, which has `set_remove`
+ENABLED in the caller's context.  Contrapositive: a disabled command — or a disabled (tags) backend —
+is never issued anything, also not behind the caller's back. -/
+theorem composite_calls_enabled_and_routed (t : Table) (w : World) (c : Nat) (inTx inv : Bool) (env : Env)
+    (p : Prog) (ini : List Nat) (n : Nat) :
+    (∀ x ∈ PEv.bcalls (Prog.run t w c inTx inv env p ini n).1,
+        isDisable w c x.2.backend [x.1.cmd] = false ∧ x.2.backend ∈ t.backends ∧
+        ∀ k ∈ x.2.keys, t.getBackend k = some x.2.backend) ∧
+    (∀ cl ∈ PEv.cbcalls (Prog.run t w c inTx inv env p ini n).1,
+        cl.cmd = .setRemove ∧ isDisable w c cl.target.backend [.setRemove] = false ∧
+        t.getBackend tagPrefix = some cl.target.backend ∧ ∃ tag, cl.keys = [tagKey tag]) := by
+  have hok := Prog.run_ok t w c inTx inv env p ini n
+  constructor
+  · rintro ⟨f, bc⟩ hx
+    obtain ⟨calls, cbs, hev, hbc⟩ := mem_bcalls hx
+    exact (hok _ hev).1 bc hbc
+  · intro cl hcl
+    obtain ⟨f, calls, cbs, hev, hc⟩ := mem_cbcalls hcl
+    obtain ⟨h1, _, h3, h4, h5⟩ := (hok _ hev).2 cl hc
+    exact ⟨h1, h4, h3, h5⟩
+
+/-- the composites of cashews — a single command, `set(tags=)`, `incr(tags=)`, `get_or_set`,
+`delete_tags`, `lock`, `@invalidate` — are such programs: the same for each of them -/
+theorem cashews_composites_enabled_and_routed (t : Table) (w : World) (c : Nat) (inTx inv : Bool)
+    (env : Env) (ini : List Nat) (cm : Comp) :
+    (∀ x ∈ PEv.bcalls (runComp t w c inTx inv env ini cm).1,
+        isDisable w c x.2.backend [x.1.cmd] = false ∧ x.2.backend ∈ t.backends ∧
+        ∀ k ∈ x.2.keys, t.getBackend k = some x.2.backend) ∧
+    (∀ cl ∈ PEv.cbcalls (runComp t w c inTx inv env ini cm).1,
+        cl.cmd = .setRemove ∧ isDisable w c cl.target.backend [.setRemove] = false ∧
+        t.getBackend tagPrefix = some cl.target.backend ∧ ∃ tag, cl.keys = [tagKey tag]) :=
+  composite_calls_enabled_and_routed t w c inTx inv env cm.prog ini 0
+
+/-- **The callback's `set_remove` is routed by longest prefix too**, provided no registered prefix
+reaches into the tag part of the key (every registered prefix of `_tag:<tag>` is a prefix of `_tag:`):
+then `_tag:<tag>` and `_tag:` are served by the same backend, the one the callback asks — and the one
+`set_add("_tag:<tag>", …)` of a tagged write was routed to.  (The callback resolves the backend of
+exactly `_tag:`; with a registered prefix such as `_tag:u` the two differ: not generated, see `partial`.) -/
+theorem remove_callback_routed_by_longest_prefix (regs : List (List Nat × Nat)) (tag : List Nat)
+    (h : ∀ q ∈ (Table.ofList regs).prefixes, q <+: tagKey tag → q <+: tagPrefix) :
+    (Table.ofList regs).getBackend (tagKey tag) = (Table.ofList regs).getBackend tagPrefix := by
+  apply getBackend_congr (Table.wf_ofList regs)
+  intro q hq
+  constructor
+  · exact h q hq
+  · intro hp
+    exact hp.trans (List.prefix_append _ _)
+
+/-- **A disabled step of a composite issues nothing**: whenever a composite runs a single-key (or
+pattern, or `ping`) command that is disabled — in the caller's context — for the backend that owns the
+key, that step causes no backend call and no callback call.  In particular `set(key, tags=[…])` /
+`incr(key, tags=[…])` with `SET_ADD` disabled for the backend of `_tag:<tag>` — through
+`disable(Command.SET_ADD)`, or because only the prefix `_tag:` of a dedicated tags backend is disabled —
+never hand `set_add` to that backend, while the write itself goes through. -/
+theorem disabled_step_issues_nothing (t : Table) (w : World) (c : Nat) (inTx inv : Bool) (env : Env)
+    (p : Prog) (ini : List Nat) (n : Nat) (cmd : Cmd) (key : List Nat) (b : Nat)
+    (hb : t.getBackend key = some b) (hd : isDisable w c b [cmd] = true)
+    (calls : List BCall) (cbs : List Call)
+    (hev : PEv.sub (.keyed cmd key) calls cbs ∈ (Prog.run t w c inTx inv env p ini n).1) :
+    calls = [] ∧ cbs = [] := by
+  obtain ⟨ini0, n0, res, ini', he, hc⟩ := Prog.run_sub t w c inTx inv env p ini n _ calls cbs hev
+  rw [disabled_short_circuit_any_env t w c inTx inv ini0 cmd key b hb hd] at he
+  simp only [Option.some.injEq, Prod.mk.injEq] at he
+  obtain ⟨_, rfl, _⟩ := he
+  refine ⟨rfl, ?_⟩
+  rcases hc with hc | hc
+  · exact hc
+  · simpa [callbacksFrom] using hc.symm
+
+/-- **While the whole cache is disabled a composite touches no backend at all**: no command, no
+`init()`, no callback call — whatever the program and the environment. -/
+theorem fully_disabled_composite_touches_nothing (t : Table) (w : World) (c : Nat) (inTx inv : Bool)
+    (env : Env) (p : Prog) (ini : List Nat) (n : Nat) (hfull : facadeFullDisable t w c = true) :
+    PEv.bcalls (Prog.run t w c inTx inv env p ini n).1 = [] ∧
+    PEv.cbcalls (Prog.run t w c inTx inv env p ini n).1 = [] := by
+  obtain ⟨h1, h2⟩ := composite_calls_enabled_and_routed t w c inTx inv env p ini n
+  constructor
+  · cases hc : PEv.bcalls (Prog.run t w c inTx inv env p ini n).1 with
+    | nil => rfl
+    | cons x r =>
+      exfalso
+      obtain ⟨g1, g2, _⟩ := h1 x (by simp [hc])
+      rw [full_disables_all hfull g2] at g1
+      cases g1
+  · cases hc : PEv.cbcalls (Prog.run t w c inTx inv env p ini n).1 with
+    | nil => rfl
+    | cons cl r =>
+      exfalso
+      obtain ⟨_, g2, g3, _⟩ := h2 cl (by simp [hc])
+      rw [full_disables_all hfull (getBackend_mem_backends g3)] at g2
+      cases g2
+
+/-- **`cache.lock` while `set_lock` is disabled: no locking, the block runs, nothing is issued** (and
+nothing raises, nothing spins — finding D22e): `set_lock` answers `None`, the body runs once, `unlock`
+and `ping` are not even attempted. -/
+theorem lock_with_set_lock_disabled (t : Table) (w : World) (c : Nat) (inTx inv : Bool) (env : Env)
+    (ini : List Nat) (key : List Nat) (b : Nat) (wait : Bool) (fuel : Nat)
+    (hb : t.getBackend key = some b) (hd : isDisable w c b [.setLock] = true) :
+    runComp t w c inTx inv env ini (.lock key wait (fuel + 1)) =
+      ([.sub (.keyed .setLock key) [] [], .body], .ret .none_, ini) := by
+  simp [runComp, Comp.prog, lockProg, Prog.run,
+    disabled_short_circuit_any_env t w c inTx inv ini .setLock key b hb hd, callbacksFrom, toAns,
+    defaultShape]
+
+/-- **`get_or_set` while `get` is disabled: the caller's default is computed on every call** (a
+disabled read answers the miss sentinel), and the following `set` is issued only if `set` is enabled. -/
+theorem get_or_set_with_get_disabled (t : Table) (w : World) (c : Nat) (inTx inv : Bool) (env : Env)
+    (ini : List Nat) (key : List Nat) (b : Nat)
+    (hb : t.getBackend key = some b) (hd : isDisable w c b [.get] = true) :
+    ∃ rest, (runComp t w c inTx inv env ini (.getOrSet key)).1 =
+      .sub (.keyed .get key) [] [] :: .body :: rest ∧
+      PEv.bodies (runComp t w c inTx inv env ini (.getOrSet key)).1 = 1 := by
+  have h0 : (runComp t w c inTx inv env ini (.getOrSet key)).1 =
+      .sub (.keyed .get key) [] [] :: .body ::
+        (Prog.run t w c inTx inv env (.call (.keyed .set key) fun _ => .done .truthy) ini 0).1 := by
+    simp [runComp, Comp.prog, Prog.run,
+      disabled_short_circuit_any_env t w c inTx inv ini .get key b hb hd, callbacksFrom, toAns,
+      defaultShape]
+  refine ⟨_, h0, ?_⟩
+  rw [h0]
+  simp [PEv.bodies, bodies_call_done]
+
 /-! ## Histories: registration, control and commands interleaved -/
 
 /-- **Every command of every history is routed by the registrations made before it.**  Take any
@@ -905,6 +1046,71 @@ example : (hstep (hrun Sys.fresh (H0 ++ [.cmd 0 false (.keyed .get [117, 58, 49]
       (.cmd 1 false (.keyed .get [117, 58, 49]))).2 =
     .cmd (some (.resp 1, [.init (.raw 2), .cmd ⟨.raw 2, .get, [[117, 58, 49]]⟩])) := by decide
 example : HOp.setups (H0 ++ [.setup 0 [117, 58] 2 true]) = [([], 0), ([117, 58], 1), ([117, 58], 2)] := by
+  decide
+
+-- composite commands.  `TT`: default backend 0 and a dedicated tags backend 1 under "_tag:"; in `WtagOff`
+-- task 0 has switched the prefix "_tag:" off (task 1 was forked before and does not see it).
+-- set("u", v, tags=["t"]) by task 0: the write reaches backend 0, `set_add("_tag:t")` is NOT issued ...
+example : runComp TT WtagOff 0 false false envT [0, 1] (.setTagged [117] [[116]]) =
+    ([.sub (.keyed .set [117]) [.cmd ⟨.raw 0, .set, [[117]]⟩] [],
+      .sub (.keyed .setAdd (tagKey [116])) [] []], .ret .truthy, [0, 1]) := by decide
+-- ... by task 1 it is, on the tags backend (longest prefix of "_tag:t" is "_tag:")
+example : runComp TT WtagOff 1 false false envT [0, 1] (.setTagged [117] [[116]]) =
+    ([.sub (.keyed .set [117]) [.cmd ⟨.raw 0, .set, [[117]]⟩] [],
+      .sub (.keyed .setAdd (tagKey [116])) [.cmd ⟨.raw 1, .setAdd, [tagKey [116]]⟩] []], .ret .truthy, [0, 1]) := by
+  decide
+-- only `set_add` disabled (`cache.disable(Command.SET_ADD)` on both backends): incr("u", tags=["t","s"]) issues the incr alone
+example : runComp TT WaddOff 0 false false envT [0, 1] (.incrTagged [117] [[116], [115]]) =
+    ([.sub (.keyed .incr [117]) [.cmd ⟨.raw 0, .incr, [[117]]⟩] [],
+      .sub (.keyed .setAdd (tagKey [116])) [] [], .sub (.keyed .setAdd (tagKey [115])) [] []],
+     .ret .truthy, [0, 1]) := by decide
+-- a write that did not happen (`set` answered False / is disabled) registers nothing
+example : (runComp TT (World.init true) 0 false false ⟨fun _ => .falsy, fun _ => []⟩ [0, 1]
+    (.setTagged [117] [[116]])).1 = [.sub (.keyed .set [117]) [.cmd ⟨.raw 0, .set, [[117]]⟩] []] := by decide
+-- delete("u") removes a key tagged "t": the callback asks the tags backend directly — unless the caller
+-- has it disabled
+example : (runComp TT WtagOff 1 false false envRm [0, 1] (.one (.keyed .delete [117]))).1 =
+    [.sub (.keyed .delete [117]) [.cmd ⟨.raw 0, .delete, [[117]]⟩] [⟨.raw 1, .setRemove, [tagKey [116]]⟩]] := by
+  decide
+example : (runComp TT WtagOff 0 false false envRm [0, 1] (.one (.keyed .delete [117]))).1 =
+    [.sub (.keyed .delete [117]) [.cmd ⟨.raw 0, .delete, [[117]]⟩] []] := by decide
+-- delete_tags("t"): set_pop on the tags backend, delete_many of the members on their own backends
+-- ("_x" is served by the default backend: "_tag:" is not a prefix of it), one round (fewer than 100 members)
+example : runComp TT (World.init true) 0 false false envPop [0, 1] (.deleteTags [[116]] 3) =
+    ([.sub (.keyed .setPop (tagKey [116])) [.cmd ⟨.raw 1, .setPop, [tagKey [116]]⟩] [],
+      .sub (.deleteMany [[117], [95, 120]]) [.cmd ⟨.raw 0, .deleteMany, [[117], [95, 120]]⟩] []],
+     .ret .none_, [0, 1]) := by decide
+-- ... with `set_pop` disabled for the tags backend nothing at all is issued
+example : (runComp TT WtagOff 0 false false envPop [0, 1] (.deleteTags [[116]] 3)).1 =
+    [.sub (.keyed .setPop (tagKey [116])) [] []] := by decide
+-- lock("u", wait=False) while somebody else holds it: set_lock, ping("LOCK") — routed by "LOCK" — then LockedError;
+-- with `ping` disabled the block runs unlocked; a free lock: set_lock, block, unlock
+example : runComp TT (World.init true) 0 false false envHeld [0, 1] (.lock [117] false 2) =
+    ([.sub (.keyed .setLock [117]) [.cmd ⟨.raw 0, .setLock, [[117]]⟩] [],
+      .sub (.keyed .ping lockPing) [.cmd ⟨.raw 0, .ping, [lockPing]⟩] []], .locked, [0, 1]) := by decide
+example : (runComp TT (ctlRun TT (World.init true) [.disable 0 [.ping] []]) 0 false false envHeld [0, 1]
+    (.lock [117] false 2)).2.1 = .ret .none_ := by decide
+example : (runComp TT (World.init true) 0 false false envT [0, 1] (.lock [117] false 2)).1 =
+    [.sub (.keyed .setLock [117]) [.cmd ⟨.raw 0, .setLock, [[117]]⟩] [], .body,
+     .sub (.keyed .unlock [117]) [.cmd ⟨.raw 0, .unlock, [[117]]⟩] []] := by decide
+-- the premises of `lock_with_set_lock_disabled` / `disabled_step_issues_nothing` are satisfiable
+example : TT.getBackend (tagKey [116]) = some 1 ∧ isDisable WtagOff 0 1 [.setAdd] = true ∧
+    isDisable WtagOff 1 1 [.setAdd] = false := by decide
+-- get_or_set("u") on a miss: get, the default, set; inside invalidate_further() the read is replaced by a deletion
+example : (runComp TT (World.init true) 0 false false ⟨fun _ => .dflt, fun _ => []⟩ [0, 1] (.getOrSet [117])).1 =
+    [.sub (.keyed .get [117]) [.cmd ⟨.raw 0, .get, [[117]]⟩] [], .body,
+     .sub (.keyed .set [117]) [.cmd ⟨.raw 0, .set, [[117]]⟩] []] := by decide
+example : (runComp TT (World.init true) 0 false true envT [0, 1] (.getOrSet [117])).1 =
+    [.sub (.keyed .get [117]) [.cmd ⟨.raw 0, .delete, [[117]]⟩] [], .body,
+     .sub (.keyed .set [117]) [.cmd ⟨.raw 0, .set, [[117]]⟩] []] := by decide
+-- the hypothesis of `remove_callback_routed_by_longest_prefix` holds for `TT` ...
+example : TT.getBackend (tagKey [116]) = TT.getBackend tagPrefix :=
+  remove_callback_routed_by_longest_prefix [([], 0), (tagPrefix, 1)] [116] (by decide)
+-- ... and is needed: with a registered prefix "_tag:t" the tag key and "_tag:" have different backends
+example : (Table.ofList [([], 0), (tagPrefix, 1), (tagKey [116], 2)]).getBackend (tagKey [116]) = some 2 ∧
+    (Table.ofList [([], 0), (tagPrefix, 1), (tagKey [116], 2)]).getBackend tagPrefix = some 1 := by decide
+-- fully disabled cache: nothing at all
+example : facadeFullDisable TT (ctlRun TT (World.init true) [.disable 0 [] [], .disable 0 [] tagPrefix]) 0 = true := by
   decide
 
 end CashewsVerif.Props.C17
